@@ -173,6 +173,12 @@ int main(int argc, char** argv) {
         std::vector<long> nin = vh_list(vh_sarg(argc, argv, "--nin", "1,2,3")), nout = vh_list(vh_sarg(argc, argv, "--nout", "1,3,8,9"));
         long ns = vh_arg(argc, argv, "--samples", 64);
         for (long a : nin) for (long b : nout) keyswitch(t, bb, (int)a, (int)b, rng, (int)ns, a <= 3 && b <= 9);
+    } else if (!strcmp(mode, "ksseq")) {      // histories: many layouts and dimensions back to back in ONE process, forward then reversed
+        std::vector<long> ts = vh_list(vh_sarg(argc, argv, "--ts", "8,15")), bbs = vh_list(vh_sarg(argc, argv, "--bbs", "2,1"));
+        long ns = vh_arg(argc, argv, "--samples", 24);
+        for (int pass = 0; pass < 2; pass++) for (size_t q = 0; q < ts.size(); q++) { size_t i = pass ? ts.size() - 1 - q : q;
+            int a = 1 + (int)((q * 3 + pass) % 9), b = 1 + (int)((q * 5 + 2 * pass) % 11);
+            keyswitch((int)ts[i], (int)bbs[i], a, b, rng, (int)ns, a <= 3 && b <= 9); }
     } else { fprintf(stderr, "usage: h_lwe lwe|tlwe|extract|ks ...\n"); return 2; }
     fflush(stdout);
     return 0;
